@@ -969,3 +969,60 @@ def gen_end_program(seed):
         body = [lit(), {'t': 'opt', 'b': [lit(1)]}, {'t': 'match', 'm': END_}, mark(7)]
     p = _mk(outs, hooks, fcodes, [], body)
     return p, spell_program(p)
+
+
+def gen_zp_program(seed):
+    """C04 reject side: loops whose body may (or may not) be able to complete without consuming input.
+    Returns (ast, source, uses_yield)."""
+    r = random.Random(seed)
+    A = list(b'ab;,')
+    outs = [{'name': 'n', 'type': 'int', 'signed': None, 'width': None, 'default': 0}]
+    hooks = ['h']
+    inc = {'t': 'set', 'var': 'n', 'e': {'k': 'bin', 'op': '+', 'l': {'k': 'var', 'name': 'n'}, 'r': {'k': 'num', 'v': 1}}}
+    lit = lambda b: {'t': 'match', 'm': {'k': 'str', 'bytes': [b]}}
+    anyb = {'t': 'match', 'm': {'k': 're', 'r': {'k': 'any'}, 'bin': False}}
+    safe = r.random() < 0.45
+    shape = r.randrange(6)
+    uses_yield = False
+    if shape == 0:
+        x = r.choice(['yield', 'hook', 'empty', 'set'])
+        eb = {'yield': [{'t': 'yield', 'code': 'U'}], 'hook': [{'t': 'hook', 'n': 'h'}], 'empty': [], 'set': [inc]}[x]
+        uses_yield = x == 'yield'
+        if safe:
+            eb = [anyb] + eb
+        body = [{'t': 'loop', 'name': None, 'b': [{'t': 'case', 'greedy': False, 'cl': [
+            {'ps': [{'k': 'str', 'bytes': [97]}], 'prio': 0, 'b': [inc]}, {'ps': [{'k': 'str', 'bytes': [59]}], 'prio': 0, 'b': [{'t': 'break', 'loop': None}]},
+            {'ps': ['else'], 'prio': 0, 'b': eb}]}]}, lit(33)]
+    elif shape == 1:
+        inner = [{'t': 'case', 'greedy': False, 'cl': [{'ps': [{'k': 'str', 'bytes': [97]}], 'prio': 0, 'b': []},
+                                                        {'ps': ['else'], 'prio': 0, 'b': [{'t': 'break', 'loop': 'inner'}]}]}]
+        if r.random() < 0.6:
+            inner.append(inc)
+        outer = [{'t': 'loop', 'name': 'inner', 'b': inner}]
+        if safe:
+            outer.append(lit(44))
+        elif r.random() < 0.5:
+            outer.append({'t': 'hook', 'n': 'h'})
+        body = [{'t': 'loop', 'name': 'outer', 'b': outer}]
+    elif shape == 2:
+        b = [{'t': 'opt', 'b': [lit(97)] + ([inc] if r.random() < 0.5 else [])}]
+        if safe:
+            b.append(lit(44))
+        body = [{'t': 'loop', 'name': None, 'b': b + [{'t': 'if', 'br': [{'c': {'k': 'bin', 'op': '>', 'l': {'k': 'var', 'name': 'n'}, 'r': {'k': 'num', 'v': 2}}, 'b': [{'t': 'break', 'loop': None}]}], 'els': None}]}, lit(33)]
+    elif shape == 3:
+        b = [{'t': 'match', 'm': {'k': 're', 'r': {'k': r.choice(['star', 'opt']), 'c': {'k': 'ch', 'c': 97}}, 'bin': False}}]
+        if safe:
+            b.append(lit(44))
+        body = [{'t': 'loop', 'name': None, 'b': b}]
+    elif shape == 4:
+        h = [] if not safe else [anyb]
+        if r.random() < 0.5:
+            h = h + [{'t': 'hook', 'n': 'h'}]
+        body = [{'t': 'loop', 'name': None, 'b': [{'t': 'try', 'b': [lit(97), lit(98)], 'handles': r.choice([None, ['nomatch']]), 'h': h}]}]
+    else:
+        # if-guarded consumption: the loop consumes only when a condition holds
+        b = [{'t': 'if', 'br': [{'c': {'k': 'bin', 'op': '<', 'l': {'k': 'var', 'name': 'n'}, 'r': {'k': 'num', 'v': 2}}, 'b': [lit(97), inc]}],
+              'els': ([lit(98)] if safe else None)}]
+        body = [{'t': 'loop', 'name': None, 'b': b}]
+    p = _mk(outs, hooks, [], ['U'] if uses_yield else [], body)
+    return p, spell_program(p), uses_yield
